@@ -102,11 +102,17 @@ pub fn expand_backslash_escapes(
             '\"' if matches!(mode, EscapeExpansionMode::AnsiCQuotes) => result.push(b'\"'),
             '?' if matches!(mode, EscapeExpansionMode::AnsiCQuotes) => result.push(b'?'),
             '0' => {
-                // Consume 0-3 valid octal chars
+                // Consume more valid octal chars: `echo -e` takes up to 3 after the `\0`; in
+                // ANSI-C quotes an octal escape has at most 3 digits in all, the `0` included
+                // (so that `$'\0017'` is the byte 0o001 followed by the character `7`).
+                let max_more = match mode {
+                    EscapeExpansionMode::EchoBuiltin => 3,
+                    EscapeExpansionMode::AnsiCQuotes => 2,
+                };
                 let mut taken_so_far = 0;
                 let mut octal_chars: String = it
                     .take_while_ref(|c| {
-                        if taken_so_far < 3 && matches!(*c, '0'..='7') {
+                        if taken_so_far < max_more && matches!(*c, '0'..='7') {
                             taken_so_far += 1;
                             true
                         } else {
